@@ -88,10 +88,32 @@ Definition probe_head (s : str) {X} (k : res X) : res X :=
   end.
 Definition probe_ps (s : stream) (d : list stream) : res (list stream) :=
   probe_head (match s with SText t => t | SBytes b => b end) (Ok (d ++ [s])).
-Definition probe_ws (cd : codec) (unicode_io : bool) (text : bool) (d : str) : res str :=
+(* the probe writers write their payload in the chunks separated by "|"; the payload "~" makes
+   them return without writing anything; the binary writer encodes chunk by chunk *)
+Fixpoint all_some {X} (l : list (option X)) : option (list X) :=
+  match l with
+  | [] => Some []
+  | Some x :: t => option_map (cons x) (all_some t)
+  | None :: _ => None
+  end.
+Definition probe_chunks (d : str) : list str :=
+  match d with
+  | [126%N] => []
+  | _ => split_on [124%N] d
+  end.
+Definition probe_ws (cd : codec) (unicode_io : bool) (text : bool) (d : str) : res (list str) :=
   probe_head d
-    (if unicode_io then (if text then Ok d else Crash)
-     else if text then Crash else match enc cd d with Some b => Ok b | None => Crash end).
+    (if unicode_io then
+       (match probe_chunks d with
+        | [] => Ok []
+        | cs => if text then Ok cs else Crash
+        end)
+     else
+       match all_some (map (enc cd) (probe_chunks d)) with
+       | None => Crash
+       | Some [] => Ok []
+       | Some bs => if text then Crash else Ok bs
+       end).
 (* class 1 = text probe (unicode_io = True), class 2 = binary probe; parser payload and writer
    payload share the type list stream (a writer payload is [SText d]) *)
 Definition probe_plugin (cd : codec) (k : klass) : option (plugin (list stream)) :=
